@@ -494,6 +494,10 @@ class IndentationFitter(object):
             self.fit()
             # Do the following three-times.
             for _i in range(3):
+                if not self.fp["success"]:
+                    # There is no fitted contact point to which the
+                    # range could be anchored (too few data points).
+                    break
                 # get the fitted contact point
                 cp = self.fp["params_fitted"]["contact_point"].value
                 self.range_x = list(np.array(range_x)+cp)
